@@ -19,6 +19,8 @@ def cells(tier):
     out += make_cells(PID, 'atomic', tier, N=3, thin=plain, extra={'prefail': True}, suffix='after-refused-messages')
     # ... and when every story was re-sent by a roStorySend before
     out += make_cells(PID, 'atomic', tier, N=3, thin=plain, extra={'presend': True}, suffix='after-roStorySend-of-every-story')
+    # a container that holds the same ID twice (first and last element)
+    out += make_cells(PID, 'atomic', tier, N=3, thin=plain, extra={'dup_state': [0, 2]}, suffix='repeated-id-in-container')
     # messages whose messageID is not a number (or blank) and whose references all resolve: nothing has to be
     # reported, so nothing may raise half-way (messages of this kind that must be REPORTED are outside the claim:
     # the report text formats int(messageID), see DESIGN.md section 8)
